@@ -238,7 +238,8 @@ struct FlatSetEngine : EngineBase {
         size_t n = il ? rng.below(4) : std::min<size_t>(bulk ? 17 + rng.below(8) : rng.below(8), std::min(kMaxRange, room(a)));
         if (il) n = std::min(n, room(a));
         std::vector<Val> vals = gen_vals(n, bulk ? 40 : 16);
-        int kind = EI<E>::kCopyable ? rng.below(RK_N) : RK_MOVE;
+        int kind = EI<E>::kCopyable ? rng.below(RK_N + 1) : RK_MOVE;
+        if (!il && kind == RK_MSET) multiset_order(vals);
         if (il) {
           set_op("insert(il)", st(a), fmt("n=%zu", n), fmt("S%d %s", a, vals_str(vals).c_str()));
           with_il(vals, [&](std::initializer_list<E> l) { window([&] { s.insert(l); }); });
